@@ -75,8 +75,28 @@ def main():
     ap = argparse.ArgumentParser()
     ap.add_argument("-p", "--prop"); ap.add_argument("-i", "--id"); ap.add_argument("-j", type=int, default=4)
     ap.add_argument("--no-tests", action="store_true")
+    ap.add_argument("--export", action="store_true", help="write every edit as mutants/benign/<id>.diff (used by the thorough tier's self-test)")
     ap.add_argument("--keep", help="apply the edit(s) of -i ID to a copy of /repo at this path and stop")
     a = ap.parse_args()
+    if a.export:
+        outd = os.path.join(ROOT, "mutants", "benign"); os.makedirs(outd, exist_ok=True)
+        for f in os.listdir(outd): os.remove(os.path.join(outd, f))
+        for m in json.load(open(os.path.join(ROOT, "mutants", "benign.json"))):
+            tmp = tempfile.mkdtemp(prefix="wpb-exp-")
+            try:
+                os.makedirs(os.path.join(tmp, "a")); os.makedirs(os.path.join(tmp, "b"))
+                for ed in m["edits"]:
+                    for side in ("a", "b"):
+                        dst = os.path.join(tmp, side, ed["file"]); os.makedirs(os.path.dirname(dst), exist_ok=True)
+                        if not os.path.exists(dst): shutil.copy(os.path.join("/repo", ed["file"]), dst)
+                errs = [apply(os.path.join(tmp, "b"), ed) for ed in m["edits"]]
+                if any(errs): print(m["id"], "SKIP", errs); continue
+                d = subprocess.run(["diff", "-ruN", "a", "b"], cwd=tmp, capture_output=True, text=True).stdout
+                open(os.path.join(outd, m["id"] + ".diff"), "w").write(d)
+            finally:
+                shutil.rmtree(tmp, ignore_errors=True)
+        print("exported", len(os.listdir(outd)), "diffs")
+        return
     if a.keep:
         m = [m for m in json.load(open(os.path.join(ROOT, "mutants", "benign.json"))) if m["id"] == a.id][0]
         shutil.copytree("/repo", a.keep, ignore=shutil.ignore_patterns(".git", "*.wbn.tmp"), symlinks=True)
